@@ -16,7 +16,7 @@ ENV = JSONPathEnvironment()
 QTEXT = P.get("qtext", "$..*")
 COMPILED = ENV.compile(QTEXT)
 DOCKIND = P.get("doc", 0)
-NAMES = ["1", "+1", "-1", "01", "~", "/", "", "é", "a/b", "~1", "#a", "0", " ", "-", "😀", "-0"]
+NAMES = ["1", "+1", "-1", "01", "~", "/", "", "é", "a/b", "~1", "#a", "0", " ", "-", "😀", "-0", "C:\\temp", "%41"]
 ALO, AHI, NEXT_ONLY = P.get("alo", 0), P.get("ahi", 15), P.get("next_only", False)
 ROUTE = P.get("route", "sync")
 VT = {"leaf": Leaf, "int": int}[P.get("vleaf", "int")]
